@@ -1,5 +1,6 @@
 import GA.Drv.Util
 import GA.Model.Mem
+import GA.Gen.SeqBody
 namespace GA.Drv.MemE
 open GA.Drv GA.Mem
 
@@ -116,5 +117,54 @@ def regroup (kv : KV) : String :=
       s!"res=ok off={v.off * esz} len={v.len} rows={shRows (chunk n (v.len / (if n = 0 then 1 else n)) flat)}"
     | _ => "bad-op"
   | _, _ => "bad-op"
+
+/-- `--body` view of the `chunks` engine: `chunks_from_slice(_mut)` / `slice_from_chunks(_mut)` answered by
+    interpreting the regenerated statement lists (`GA.Gen.SeqBody`) with pointer provenance -/
+def chunksBody (kv : KV) : String :=
+  match kv.nat? "n", kv.nat? "l" with
+  | some n, some l =>
+    let esz := eszOf (kv.getD "kind" "u32")
+    let showC (wr : Bool) (o : GA.MemBody.VOut) : String := match o with
+      | .views [c, r] =>
+        if c.wr != wr || r.wr != wr then "res=wrong-mutability"
+        else if n = 0 then (if c.len = 0 && r.len = 0 then "res=empties" else "res=ub")
+        else if c.len % n != 0 then "res=ub"
+        else s!"res=ok c_off={c.off * esz} c_len={c.len / n} r_off={r.off * esz} r_len={r.len}"
+      | .views _ => "res=wrong-shape"
+      | .panic => "res=panic(n_zero)"
+      | .err => "res=err"
+      | .ub => "res=ub"
+    let showF (wr : Bool) (o : GA.MemBody.VOut) : String := match o with
+      | .views [v] => if v.wr != wr then "res=wrong-mutability" else s!"res=ok off={v.off * esz} len={v.len}"
+      | .views _ => "res=wrong-shape"
+      | .panic => "res=panic"
+      | .err => "res=err"
+      | .ub => "res=ub"
+    match kv.getD "op" "" with
+    | "chunks" => showC false (GA.MemBody.runViews false GA.Gen.SeqBody.chunksFromSlice ⟨n, l, 0⟩)
+    | "chunks_mut" => showC true (GA.MemBody.runViews true GA.Gen.SeqBody.chunksFromSliceMut ⟨n, l, 0⟩)
+    | "flat" => showF false (GA.MemBody.runViews false GA.Gen.SeqBody.sliceFromChunks ⟨n, l, 0⟩)
+    | "flat_mut" => showF true (GA.MemBody.runViews true GA.Gen.SeqBody.sliceFromChunksMut ⟨n, l, 0⟩)
+    | _ => "n/a"
+  | _, _ => "n/a"
+
+/-- `--body` view of the `views` engine for the checked slice → array-reference conversions -/
+def viewsBody (kv : KV) : String :=
+  match kv.nat? "n" with
+  | none => "n/a"
+  | some n =>
+    let esz := eszOf (kv.getD "kind" "u32")
+    let l := kv.natD "l" 0
+    let sh (wr : Bool) (o : GA.MemBody.VOut) : String := match o with
+      | .views [v] => if v.wr != wr then "res=wrong-mutability" else s!"res=ok off={v.off * esz} len={v.len}"
+      | .views _ => "res=wrong-shape"
+      | .err => "res=err"
+      | .panic => "res=panic(slice_len)"
+      | .ub => "res=ub"
+    match kv.getD "op" "" with
+    | "from_slice" => sh false (GA.MemBody.runViews false GA.Gen.SeqBody.fromSlice ⟨n, l, 0⟩)
+    | "try_from_slice" => sh false (GA.MemBody.runViews false GA.Gen.SeqBody.tryFromSlice ⟨n, l, 0⟩)
+    | "from_mut_slice" => sh true (GA.MemBody.runViews true GA.Gen.SeqBody.fromMutSlice ⟨n, l, 0⟩)
+    | _ => "n/a"
 
 end GA.Drv.MemE
